@@ -229,10 +229,47 @@ async fn body(seed: u64) -> Out {
         }
         targets.push(Tgt { uid, actor, handle, log, pid });
     }
+    // an extra remotable actor that will exit under load (casts keep arriving for it while it stops)
+    let xlog = Arc::new(Mutex::new(vec![]));
+    let (xact, xh) = Actor::spawn(Some(format!("tcp-x-{tag}")), RActor { uid: 999, log: xlog.clone(), start_ms: 0 }, ()).await.expect("x");
+    let xpid = xact.get_id().pid();
+    let mut xh = Some(xh);
     let victim_log = Arc::new(Mutex::new(vec![]));
     let (victim, victim_h) = Actor::spawn(Some(format!("tcp-victim-{tag}")), Rem { handled: victim_log.clone() }, ()).await.expect("victim");
     let victim_pid = victim.get_id().pid();
 
+    // ---- membership churn across the session set-up (C20: proxies join and leave the same groups). B's session counter is advanced
+    // first (8 raw connections that say nothing) so that the two sessions' proxy ids differ although both nodes share this
+    // process's pg tables. Then many pre-existing groups make the new session's initial group scan take a while, and an OS thread
+    // keeps joining a remotable actor to fresh groups from before the dial until after both sides are ready: each of those joins
+    // is either in the initial sync or announced as a change - never in neither.
+    let mut junk = vec![];
+    for _ in 0..8 {
+        if let Ok(sck) = tokio::net::TcpStream::connect(("127.0.0.1", b.port)).await {
+            junk.push(sck);
+        }
+    }
+    tokio::time::sleep(Duration::from_millis(5)).await;
+    let churn = p.chance(1, 2);
+    let npre = if churn { *p.pick(&[50u64, 400, 1500]) } else { 0 };
+    for g in 0..npre {
+        ractor::pg::join_scoped(format!("tcpm-{tag}"), format!("pre-{g}"), vec![targets[0].actor.get_cell()]);
+    }
+    let churn_stop = Arc::new(AtomicBool::new(false));
+    let churn_thread = if churn {
+        let (cell, stop, tagc) = (targets[1 % targets.len()].actor.get_cell(), churn_stop.clone(), tag.clone());
+        Some(std::thread::spawn(move || {
+            let mut k = 0u64;
+            while !stop.load(Ordering::SeqCst) && k < 3000 {
+                ractor::pg::join_scoped(format!("tcpm-{tagc}"), format!("fresh-{k}"), vec![cell.clone()]);
+                k += 1;
+                std::thread::sleep(Duration::from_micros(30));
+            }
+            k
+        }))
+    } else {
+        None
+    };
     // ---- adversaries on raw sockets (C17 / C19), started before and running across the link set-up
     let nadv = p.below(4);
     let mut adv_tasks = vec![];
@@ -333,6 +370,49 @@ async fn body(seed: u64) -> Out {
     }
     let ready = dial_ok && wait_until(20_000, || !a.events.ready.lock().unwrap().is_empty() && !b.events.ready.lock().unwrap().is_empty()).await;
     dbg(&format!("dialled mode={mode} ready={ready}"));
+    let mut fresh_groups = 0u64;
+    if let Some(t) = churn_thread {
+        if ready {
+            tokio::time::sleep(Duration::from_millis(3)).await;
+        }
+        churn_stop.store(true, Ordering::SeqCst);
+        fresh_groups = t.join().unwrap_or(0);
+    }
+    if ready && churn && (mode == 0 || mode >= 3) {
+        let cpid = targets[1 % targets.len()].pid;
+        for s in authed_sessions(&a).await.into_iter().chain(authed_sessions(&b).await.into_iter()) {
+            let mut fpx = None;
+            for _ in 0..400 {
+                fpx = proxies_of(&s).into_iter().find(|c| c.get_id().pid() == targets[0].pid && c.get_status() == ActorStatus::Running);
+                if fpx.is_some() {
+                    break;
+                }
+                tokio::time::sleep(Duration::from_millis(5)).await;
+            }
+            let Some(fpx) = fpx else { continue };
+            let node_id = match fpx.get_id() {
+                ractor::ActorId::Remote { node_id, .. } => node_id,
+                _ => continue,
+            };
+            let fr: ActorRef<RMsg> = fpx.into();
+            // fence: the peer answers this call only after it has announced every earlier join, and this session reads the reply after them
+            if !matches!(fr.call(|reply| RMsg::Ask(9997, 1, 0, reply), Some(Duration::from_secs(20))).await, Ok(CallResult::Success(_))) {
+                continue;
+            }
+            *c.entry("membership_fences").or_default() += 1;
+            let mut missing = vec![];
+            for k in 0..fresh_groups {
+                let members = ractor::pg::get_scoped_members(&format!("tcpm-{tag}"), &format!("fresh-{k}"));
+                if !members.iter().any(|m| m.get_id() == (ractor::ActorId::Remote { node_id, pid: cpid })) {
+                    missing.push(k);
+                }
+            }
+            *c.entry("fresh_groups_checked").or_default() += fresh_groups;
+            if !missing.is_empty() {
+                v.push(("C20", "membership-not-mirrored".into(), format!("{} of {fresh_groups} groups that a remotable actor joined while session {node_id} was being set up ({npre} groups existed before) never got that session's proxy as a member although a later call through the session was answered (first missing: fresh-{}): the join was neither in the initial sync nor announced", missing.len(), missing[0])));
+            }
+        }
+    }
     let mut lanes_res: Vec<LaneRes> = vec![];
     let mut did_cut = false;
     let mut samples = 0u64;
@@ -454,6 +534,56 @@ async fn body(seed: u64) -> Out {
                 tasks.push(tokio::spawn(async move { Some(fut.await) }));
             }
         }
+        // ---- exit under load (C20: a proxy stops when the original stops): casts keep flowing to X through one session's proxy while X
+        // stops; afterwards a *fence* call through another proxy of the same session is answered by the hosting node only after that
+        // node's session has handled X's exit event (supervision outranks messages) and written its Terminate frame, and the reply is
+        // read by this side's session only after that frame: so once the fence is answered, X's proxy must at least have been asked to stop
+        if p.chance(1, 2) && !sessions.is_empty() {
+            let ses = sessions[p.below(sessions.len() as u64) as usize].clone();
+            let mut px = None;
+            for _ in 0..400 {
+                px = proxies_of(&ses).into_iter().find(|c| c.get_id().pid() == xpid && c.get_status() == ActorStatus::Running);
+                if px.is_some() {
+                    break;
+                }
+                tokio::time::sleep(Duration::from_millis(5)).await;
+            }
+            let fence_px = proxies_of(&ses).into_iter().find(|c| c.get_id().pid() == targets[0].pid && c.get_status() == ActorStatus::Running);
+            if let (Some(px), Some(fpx)) = (px, fence_px) {
+                let stop_flag = Arc::new(AtomicBool::new(false));
+                let (sf, pxc) = (stop_flag.clone(), px.clone());
+                let burst = tokio::spawn(async move {
+                    let typed: ActorRef<RMsg> = pxc.into();
+                    let mut k = 0u64;
+                    while !sf.load(Ordering::SeqCst) && k < 200_000 {
+                        k += 1;
+                        if typed.cast(RMsg::Note(9999, k, vec![1, 2, 3])).is_err() {
+                            break;
+                        }
+                        if k % 64 == 0 {
+                            tokio::task::yield_now().await;
+                        }
+                    }
+                    k
+                });
+                tokio::time::sleep(Duration::from_micros(p.below(8000))).await;
+                xact.stop(None);
+                if let Some(h) = xh.take() {
+                    let _ = tokio::time::timeout(Duration::from_secs(40), h).await;
+                }
+                let fr: ActorRef<RMsg> = fpx.into();
+                let fenced = matches!(fr.call(|reply| RMsg::Ask(9998, 1, 0, reply), Some(Duration::from_secs(20))).await, Ok(CallResult::Success(_)));
+                stop_flag.store(true, Ordering::SeqCst);
+                let sent = burst.await.unwrap_or(0);
+                *c.entry("exit_under_load_casts").or_default() += sent;
+                if fenced {
+                    *c.entry("exit_under_load_fenced").or_default() += 1;
+                    if px.get_status() < ActorStatus::Stopping && !px.verif_stop_sent() && !px.verif_signal_sent() {
+                        v.push(("C20", "proxy-outlives-original".into(), format!("the original (pid {xpid}) stopped while {sent} casts were flowing to it through its proxy {:?}; a later call through another proxy of the same session was answered, yet nobody has asked the proxy to stop: the peer never announced the exit", px.get_id())));
+                    }
+                }
+            }
+        }
         // optional cut while the lanes are running
         if mode >= 3 && p.chance(1, 2) {
             tokio::time::sleep(Duration::from_millis(p.below(40))).await;
@@ -464,6 +594,10 @@ async fn body(seed: u64) -> Out {
             match tokio::time::timeout(Duration::from_secs(100), t).await {
                 Ok(Ok(Some(r))) => lanes_res.push(r),
                 _ => {
+                    xact.stop(None);
+                    if let Some(h) = xh.take() {
+                        let _ = tokio::time::timeout(Duration::from_secs(40), h).await;
+                    }
                     return finish(a, b, spoof, targets, (victim, victim_h), Out { v, inconclusive: Some("a lane did not finish within 100 s wall".into()), nontrivial: false, sig: 0, c }).await;
                 }
             }
@@ -602,6 +736,10 @@ async fn body(seed: u64) -> Out {
     *c.entry("links_ready").or_default() += ready as u64;
     let inconclusive = if !ready { Some(format!("link not ready within 20 s wall (dial mode {mode}, dial_ok={dial_ok})")) } else { None };
     let sig = hash_words(&[mode, nadv, spoof.is_some() as u64, did_cut as u64, lanes_res.len() as u64, lanes_res.iter().filter(|l| l.fence_handled).count() as u64]);
+    xact.stop(None);
+    if let Some(h) = xh.take() {
+        let _ = tokio::time::timeout(Duration::from_secs(40), h).await;
+    }
     finish(a, b, spoof, targets, (victim, victim_h), Out { v, inconclusive, nontrivial: ready && !lanes_res.is_empty(), sig, c }).await
 }
 
